@@ -479,3 +479,27 @@ T('c16i_cookie_alias_saved', ['C16'],
 T('c16i_expiry_from_cookie_local', ['C16'],
   (CK, "            save_cookie_kwargs['expires'] = cookie['_expires']\n",
        "            until = cookie['_expires']\n            save_cookie_kwargs['expires'] = until\n"))
+
+# ---------------------------------------------------------------- R16.d: what is stamped is "now + configured expiry"
+_STAMP_LINE = "                cookie['_expires'] = time.time() + self.expiry\n"
+B('c16i_stamp_relative_number', ['C16'], 'R16.d', (CK, _STAMP_LINE, "                cookie['_expires'] = self.expiry\n"))
+B('c16i_stamp_subtracted', ['C16'], 'R16.d', (CK, _STAMP_LINE, "                now = time.time()\n                cookie['_expires'] = now - self.expiry\n"))
+B('c16i_stamp_now_only', ['C16'], 'R16.d',
+  (CK, _STAMP, "        if self.expiry != NEVER and self.expiry != SESSION:\n            cookie.setdefault('_expires', int(time.time()))\n"))
+T('c16i_stamp_reversed_sum_int', ['C16'], (CK, _STAMP_LINE, "                cookie['_expires'] = int(self.expiry + time.time())\n"))
+T('c16i_stamp_imported_clock', ['C16'],
+  (CK, 'import base64\n', 'import base64\nfrom time import time as _now\n'),
+  (CK, _STAMP_LINE, "                lifetime = self.expiry\n                cookie['_expires'] = _now() + lifetime\n"))
+
+# ---------------------------------------------------------------- R16.a: clastic's own decoding of client data is guarded too
+B('c16i_own_decode_unguarded', ['C16'], 'R16.a',
+  _unser('        string = string.strip(\'"\')\n        if isinstance(string, bytes):\n            string = string.decode("ascii")\n        try:\n'
+         '            return super(cls, JSONCookie).unserialize(string, secret_key)\n        except Exception:\n            return cls((), secret_key, False)'))
+B('c16i_own_split_unguarded', ['C16'], 'R16.a',
+  _unser('        string = string.strip(\'"\')\n        mac, payload = string.split("?")\n        try:\n'
+         '            return super(cls, JSONCookie).unserialize(mac + "?" + payload, secret_key)\n        except Exception:\n            return cls((), secret_key, False)'))
+B('c16i_own_decode_in_middleware', ['C16'], 'R16.a',
+  (CK, _LOAD, "        version = int(request.cookies.get(self.cookie_name + '_v', '1'))\n" + _LOAD))
+T('c16i_own_decode_guarded', ['C16'],
+  _unser('        string = string.strip(\'"\')\n        try:\n            if string.isdigit() and int(string) == 0:\n                return cls((), secret_key, False)\n'
+         '            return super(cls, JSONCookie).unserialize(string, secret_key)\n        except Exception:\n            return cls((), secret_key, False)'))
